@@ -223,10 +223,11 @@ class Obs:
 
 
 class State:
-    __slots__ = ("real", "twin", "acc", "obs", "tobs", "n")
+    __slots__ = ("real", "twin", "acc", "obs", "tobs", "n", "rsw")
 
-    def __init__(self, real, twin, acc, obs, tobs, n):
+    def __init__(self, real, twin, acc, obs, tobs, n, rsw=False):
         self.real, self.twin, self.acc, self.obs, self.tobs, self.n = real, twin, acc, obs, tobs, n
+        self.rsw = rsw              # "read since the last write": abstraction of hidden cache state (see canon)
 
 
 BASE_OPS = [["read", "array"], ["read", "frame"], ["arr", "ones"], ["empty"], ["rm", "all"], ["arr", "single"],
@@ -287,7 +288,10 @@ class Model:
         return self.alphabet
 
     def canon(self, st):
-        return (st.obs.key, None if st.tobs is None else st.tobs.key)
+        # The observable state alone is NOT a sound key: an implementation may cache the converted array, so two
+        # histories with the same observable state but a different "was it read since the last modification" have
+        # different futures (seeded variant C14_1: read, then partial removal).  That bit is part of the key.
+        return (st.obs.key, None if st.tobs is None else st.tobs.key, st.rsw)
 
     def cluster_rows(self, op):
         return [(self.numbers[n], POSITIONS[p][0], POSITIONS[p][1]) for n, p in op[1]]
@@ -443,7 +447,7 @@ class Model:
                 f"but {tobs.describe()} when they were not")
         if not acc_defined and obs.arr is not None:
             acc = obs.arr.copy()
-        return State(real, twin, acc, obs, tobs, st.n + 1), viols
+        return State(real, twin, acc, obs, tobs, st.n + 1, rsw=(name == "read")), viols
 
 
 # ------------------------------------------------------------------ JIT conformance (separate interpreter)
